@@ -23,12 +23,6 @@ import (
 
 // ---------- printing the reports ----------
 
-
-
-
-
-
-
 // ---------- props generators with boundary / invalid values ----------
 
 // ---------- the property ----------
